@@ -1,10 +1,22 @@
 """C14 configuration (see lib/props.py for the format)."""
 
+import os
+
 _F = "c14_framing"
 _R = "c14_rpc"
 
+# Coverage-guided leg (thorough tier): one case = one bounded libFuzzer session over the three decoders, see harness/c14_fuzz.cpp.
+# It needs the `fuzz` flavour of the library; lib/vbuild.py cannot build that flavour at present (clang-14 rejects
+# modules/util/variables.h, pulled in by modules/main/*.cpp - same limitation as C19), so the leg is opt-in:
+# VERIF_C14_FUZZ=1 bin/check C14 --tier thorough.  The harness was validated with a direct clang-14 build of the ten translation
+# units it needs (findings/c14.md (a)): it reports totality/header/exception-escaped in every session on the unchanged tree.
+_FUZZ = os.environ.get("VERIF_C14_FUZZ") == "1"
+_FUZZ_LEG = [dict(name="fuzz", harness="c14_fuzz", flavour="fuzz", mode="fuzz", args=["--runs", "100000", "--maxlen", "256"],
+                  quick=0, thorough=30, case_timeout=900)] if _FUZZ else []
+_FUZZ_H = {"c14_fuzz": dict(sources=["harness/c14_fuzz.cpp"], ldflags=["-fsanitize=fuzzer"])} if _FUZZ else {}
+
 PROP = dict(
-    harnesses={_F: dict(sources=["harness/c14_framing.cpp"]), _R: dict(sources=["harness/c14_rpc.cpp"])},
+    harnesses=dict({_F: dict(sources=["harness/c14_framing.cpp"]), _R: dict(sources=["harness/c14_rpc.cpp"])}, **_FUZZ_H),
     legs=[
         dict(name="stream", harness=_F, flavour="asan", mode="stream", quick=5000, thorough=150000),
         dict(name="hostile", harness=_F, flavour="asan", mode="hostile", quick=60000, thorough=3000000),
@@ -14,7 +26,7 @@ PROP = dict(
         # sanitizer frames are inflated, stack use is judged on the uninstrumented code)
         dict(name="deepnest", harness=_F, flavour="plain", mode="deepnest", quick=84, thorough=84, scalable=False, exhaustive=True,
              args=["--watchdog", "400"], case_timeout=300),
-    ],
+    ] + _FUZZ_LEG,
     rule=("stream: 1-8 JSON-RPC messages (requests, notifications, results, errors; params/results random JSON to depth 7 with strings "
           "made of quotes, backslashes, braces, brackets, escapes, control characters, NUL, 2/3/4-byte UTF-8, runs of 1-4 trailing backslashes; "
           "ids and error codes incl. INT_MIN/INT_MAX/0/negative; one case in 40 has a frame of 66-200 KB) written by the framing's own encoder "
@@ -53,8 +65,8 @@ PROP = dict(
         "a response matches a request only if its id is a JSON integer equal to the id the Rpc put on the wire; string, fractional, null and out-of-int-range ids are unknown ids",
         "histories do not call Rpc::cleanup() with requests pending and callbacks do not destroy the Rpc; ids never wrap (fewer than 2^31 requests)",
         "deep nesting is judged on the plain build on an 8 MiB thread stack (the Linux default); receiver callbacks take the Json by reference and do not copy it",
-        "the libFuzzer leg planned in DESIGN is not registered: lib/vbuild.py cannot build the fuzz flavour of the whole library (see findings/c14.md); the hostile leg's "
-        "thorough count stands in for it",
+        "the libFuzzer leg planned in DESIGN (harness/c14_fuzz.cpp) is opt-in (VERIF_C14_FUZZ=1, thorough tier): lib/vbuild.py cannot build the fuzz flavour of the "
+        "whole library at present; without it the 3 M generated inputs of the hostile leg are the thorough tier's reach into the decoders",
     ],
     technique=("runtime monitoring: the real framings, Rpc, TimeoutMonitor and Loop run on generated streams and histories under ASan+UBSan (virtual monotonic clock); "
                "decoded callbacks are compared with the generator's message list and with the unsegmented decode, completion callbacks with a lock-step "
